@@ -36,7 +36,7 @@ impl Lex {
                     }
                 }
                 let mut j = i + 1;
-                while j < cs.len() && (cs[j].is_ascii_alphanumeric() || cs[j] == '_') { j += 1; }
+                while j < cs.len() && (cs[j].is_alphanumeric() || cs[j] == '_') { j += 1; }
                 let name: String = cs[i + 1..j].iter().collect();
                 match self.get(&name) { Some(x) => out.push_str(&x), None => { out.push('$'); out.push_str(&name); } }
                 i = j;
@@ -469,5 +469,51 @@ pub fn run(rep: &mut Report, tier: &str, seed: u64) -> Result<(), String> {
     rep.streams.push(corr);
     rep.streams.push(orc);
     stream_defaults(rep, &mut drv, &mut rng.fork(), n / 2)?;
+    names_stream(rep, &mut rng.fork(), n / 6);
     Ok(())
+}
+
+/// variable names with letters outside ASCII, read in both spellings ($name and ${name}) next to defined and
+/// undefined names that share an ASCII prefix with them (oracle only: the model's identifiers are ASCII)
+fn names_stream(rep: &mut Report, rng: &mut Rng, n: usize) {
+    let mut st = Stream::new("oracle/name-boundaries", "oracle",
+        "documents binding variables whose names contain letters outside ASCII (größe, café, naïve_1, x²), through <var>, <g> attributes and <reuse> attributes, and reading them as $name and ${name}, followed by punctuation, next to a defined ASCII prefix of the name (gr, caf) and to undefined names: every read resolves to the innermost definition of exactly that name, the two spellings agree, an undefined name stays verbatim");
+    const NAMES: [(&str, &str); 4] = [("größe", "gr"), ("café", "caf"), ("naïve_1", "na"), ("xé2", "x")];
+    for _ in 0..n {
+        let (name, prefix) = *rng.pick(&NAMES);
+        let (v_outer, v_inner, v_pre) = (format!("o{}", rng.below(9)), format!("i{}", rng.below(9)), format!("p{}", rng.below(9)));
+        let define_full = rng.chance(3, 4);
+        let define_prefix = rng.chance(1, 2);
+        let tail = *rng.pick(&["", "-", ".", " z", "|"]);
+        let mut doc = String::from("<svg>");
+        let mut vars: Vec<String> = vec![];
+        if define_full { vars.push(format!("{name}=\"{v_outer}\"")); }
+        if define_prefix { vars.push(format!("{prefix}=\"{v_pre}\"")); }
+        if !vars.is_empty() { doc.push_str(&format!("<var {}/>", vars.join(" "))); }
+        let shadow = rng.chance(1, 2);
+        let probe = format!("<rect wh=\"1\" data-p=\"${name}{tail}\" data-q=\"${{{name}}}{tail}\"/>");
+        if shadow { doc.push_str(&format!("<g {name}=\"{v_inner}\">{probe}</g>")); }
+        doc.push_str(&probe);
+        doc.push_str("</svg>");
+        let outer = if define_full { v_outer.clone() } else { format!("${name}") };
+        let outer_q = if define_full { v_outer.clone() } else { format!("${{{name}}}") };
+        let mut want: Vec<(String, String)> = vec![];
+        if shadow { want.push((format!("{v_inner}{tail}"), format!("{v_inner}{tail}"))); }
+        want.push((format!("{outer}{tail}"), format!("{outer_q}{tail}")));
+        st.case(&doc, true, || json!({"document": doc}));
+        match crate::util::transform(&doc, &crate::util::default_cfg()) {
+            Ok(Ok(out)) => {
+                let got: Vec<(String, String)> = match crate::util::parse_elements(&out) {
+                    Ok(els) => els.iter().filter(|o| o.el.get("data-p").is_some()).map(|o| (o.el.get("data-p").unwrap_or("").to_string(), o.el.get("data-q").unwrap_or("").to_string())).collect(),
+                    Err(_) => vec![],
+                };
+                if got == want { st.exact += 1; } else {
+                    rep.violation(Violation { kind: "oracle", stream: st.name.clone(), signature: "C15:name-boundary".into(), what: format!("reads of ${name} / ${{{name}}} give {got:?}, the innermost definitions give {want:?}"), replay: json!({"input": doc}), confirmed_on_impl: true });
+                }
+            }
+            Ok(Err(e)) => rep.violation(Violation { kind: "oracle", stream: st.name.clone(), signature: "C15:name-boundary-error".into(), what: format!("transform fails: {e}"), replay: json!({"input": doc}), confirmed_on_impl: true }),
+            Err(p) => rep.violation(Violation { kind: "oracle", stream: st.name.clone(), signature: "C15:panic".into(), what: format!("panic: {p}"), replay: json!({"input": doc}), confirmed_on_impl: true }),
+        }
+    }
+    rep.streams.push(st);
 }
